@@ -433,6 +433,24 @@ func RunTransfer(ctx context.Context, client, server *quic.Conn, connIdx int, ts
 			go func() {
 				defer dwg.Done()
 				seen := map[uint32]bool{}
+				// what ReceiveDatagram returned belongs to the application: it is kept (not copied) and compared
+				// again when the receiver stops, so a buffer that the connection recycles underneath is noticed
+				type heldDg struct {
+					id uint32
+					p  []byte
+				}
+				var held []heldDg
+				defer func() {
+					for _, h := range held {
+						smu.Lock()
+						orig := sent[h.id]
+						smu.Unlock()
+						if string(orig) != string(h.p) {
+							t.viol("C01|datagram|altered-after-delivery", "datagram id %d was intact when ReceiveDatagram returned it and reads differently at the end of the transfer (the slice handed to the application was reused)", h.id)
+							return
+						}
+					}
+				}()
 				for {
 					p, err := rcv.ReceiveDatagram(dctx)
 					if err != nil {
@@ -458,6 +476,7 @@ func RunTransfer(ctx context.Context, client, server *quic.Conn, connIdx int, ts
 						t.viol("C01|datagram|delivered-twice", "datagram id %d was delivered twice", id)
 					}
 					seen[id] = true
+					held = append(held, heldDg{id, p})
 					t.mu.Lock()
 					res.DgramsRcvd[b2i(!side)]++
 					t.mu.Unlock()
